@@ -21,7 +21,8 @@ func init() {
 		Assumptions: []string{"logging and metrics calls do not panic", "a comparison recognised as a guard is sufficient when the edge leading to the site implies the needed sign/non-zero property of the same variable or struct field (fields are assumed not to be modified between validation in the constructor and use, which R checks by requiring every store into the field to be validated)"},
 		Rules: []RuleDef{
 			{ID: "C14.R1", Min: 60, Doc: "crash-site obligations K1–K11 over all runtime functions: enumerate, then discharge by guard / validated value flow / reviewed table", Run: c14r1},
-			{ID: "C14.R3", Min: 5, Doc: "one concrete type per published atomic.Value: a consistentHashing route always publishes a consistentHashingConfig — every exported baseRoute method that rebuilds the config through an extender is redeclared on *ConsistentHashing with its own extender; storing a baseConfig into the same atomic.Value panics ('store of inconsistently typed value') in the admin goroutine (rule C15.R3 evaluated for this property as well)", Run: c15r3},
+			{ID: "C14.R4", Min: 3, Doc: "no concurrent map write: the maps that several goroutines use (the aggregator's regex match cache, the order-validation table) are only written with their mutex held exclusively — a concurrent map write is a fatal runtime error that recover() cannot catch (lockset rules C03.R4(a) and C19.R1 evaluated for this property as well)", Run: func(c *Check) { reCacheLockset(c); c19r1(c) }},
+			{ID: "C14.R3", Min: 5, Doc: "one concrete type per published atomic.Value: a consistentHashing route always publishes a consistentHashingConfig — every exported baseRoute method that stores a configuration is redeclared on *ConsistentHashing, and every storing path of those methods builds the ring (i.e. a consistentHashingConfig); storing a baseConfig into the same atomic.Value panics ('store of inconsistently typed value') in the admin goroutine (rules C15.R3 and C15.R2's path rule evaluated for this property as well)", Run: func(c *Check) { c15r3(c); c15r2paths(c) }},
 			{ID: "C14.R2", Min: 2, Doc: "structural preconditions of the reviewed entries (constructor guards, list/map agreement in AddOrCreate, ring non-emptiness) still hold", Run: c14r2},
 		},
 	})
@@ -325,6 +326,40 @@ func c14r1(c *Check) {
 						if w == s.Fn {
 							r, ok, key = r2, true, k2
 						}
+					}
+				}
+			}
+			if !ok && s.Class == "K9" {
+				// the indexed slice is a parameter of a helper: every caller hands in a slice for which the same
+				// index is guarded or reviewed at the call site
+				if par, isPar := s.Val.(*ssa.Parameter); isPar && par.Parent() == s.Fn {
+					idx := -1
+					for i, p := range s.Fn.Params {
+						if p == par {
+							idx = i
+						}
+					}
+					ins := c.P.CG().In[s.Fn]
+					all := len(ins) > 0 && idx >= 0
+					var rk string
+					var rr reviewed
+					for _, e := range ins {
+						cc := callCommon(e.Site)
+						if e.Kind != EdgeCall || e.Dyn || cc == nil || idx >= len(cc.Args) {
+							all = false
+							break
+						}
+						arg := cc.Args[idx]
+						what := strings.Replace(s.What, describeVal(s.Val), describeVal(arg), 1)
+						k2 := fmt.Sprintf("%s %s %s", s.Class, stableFuncName(e.Caller), what)
+						if r2, ok2 := reviewedSites[k2]; ok2 {
+							rk, rr = k2, r2
+							continue
+						}
+						all = false
+					}
+					if all && rk != "" {
+						r, ok, key = rr, true, rk
 					}
 				}
 			}
@@ -785,9 +820,13 @@ func c14r2(c *Check) {
 				case "Concurrency":
 					if _, g := guardedAt(ng, cfgStore, u, needPos); g {
 						okConc = true
+					} else if _, g := validatedByHelper(ng, cfgStore, u, needPos, 0); g {
+						okConc = true
 					}
 				case "BufSize":
 					if _, g := guardedAt(ng, cfgStore, u, needNonNeg); g {
+						okBuf = true
+					} else if _, g := validatedByHelper(ng, cfgStore, u, needNonNeg, 0); g {
 						okBuf = true
 					}
 				}
@@ -948,103 +987,91 @@ func c14r2(c *Check) {
 	// tests the length of the destination list first
 	nCH := modPath + "/route.NewConsistentHashing"
 	for _, rdr := range [][2]string{{"imperatives", "readAddRouteConsistentHashing"}, {"cfg", "InitRoutes"}} {
-		fn := c.P.Func(rdr[0], "", rdr[1])
+		entry := c.P.Func(rdr[0], "", rdr[1])
 		okTwo := false
-		// guardBefore: in f, a test `len(dests) REL k` whose continuing edge establishes len > 0 dominates the call
-		guardBefore := func(f *ssa.Function, call *ssa.Call, dests ssa.Value, bind map[*ssa.Parameter]ssa.Value) bool {
-			for _, b := range f.Blocks {
-				ifi, ok := b.Instrs[len(b.Instrs)-1].(*ssa.If)
-				if !ok {
-					continue
-				}
-				bo, ok := ifi.Cond.(*ssa.BinOp)
-				if !ok || !isLenOf(bo.X, dests) {
-					continue
-				}
-				kv := bo.Y
-				if p, ok := kv.(*ssa.Parameter); ok && bind[p] != nil {
-					kv = bind[p]
-				}
-				k, ok := constInt(kv)
-				if !ok {
-					continue
-				}
-				for si := 0; si < 2; si++ {
-					if edgeEstablishes(bo.Op, k, true, si == 0, needPos, false) && edgeDominates(b, b.Succs[si], call.Block()) {
-						return true
+		nSites, nGuarded := 0, 0
+		// the entry point or one of the functions of its package it calls (a per-type helper)
+		for _, fn := range samePkgCallees(c.P, entry) {
+			fn := fn
+			// guardBefore: in f, a test `len(dests) REL k` whose continuing edge establishes len > 0 dominates the call
+			guardBefore := func(f *ssa.Function, call *ssa.Call, dests ssa.Value, bind map[*ssa.Parameter]ssa.Value) bool {
+				for _, b := range f.Blocks {
+					ifi, ok := b.Instrs[len(b.Instrs)-1].(*ssa.If)
+					if !ok {
+						continue
+					}
+					bo, ok := ifi.Cond.(*ssa.BinOp)
+					if !ok || !isLenOf(bo.X, dests) {
+						continue
+					}
+					kv := bo.Y
+					if p, ok := kv.(*ssa.Parameter); ok && bind[p] != nil {
+						kv = bind[p]
+					}
+					k, ok := constInt(kv)
+					if !ok {
+						continue
+					}
+					for si := 0; si < 2; si++ {
+						if edgeEstablishes(bo.Op, k, true, si == 0, needPos, false) && edgeDominates(b, b.Succs[si], call.Block()) {
+							return true
+						}
 					}
 				}
+				return false
 			}
-			return false
-		}
-		allInstrs(fn, func(in ssa.Instruction) {
-			call, ok := in.(*ssa.Call)
-			if !ok {
-				return
-			}
-			if calleeName(call.Common()) == nCH {
-				if guardBefore(fn, call, call.Call.Args[2], nil) {
-					okTwo = true
-				}
-				return
-			}
-			// a helper that is handed the constructor
-			g := call.Call.StaticCallee()
-			if g == nil || g.Blocks == nil || !ModuleFunc(g) {
-				return
-			}
-			bind := map[*ssa.Parameter]ssa.Value{}
-			var ctorPar *ssa.Parameter
-			for i, a := range call.Call.Args {
-				if i >= len(g.Params) {
-					break
-				}
-				bind[g.Params[i]] = a
-				if f := resolveFuncValue(a); f != nil && funcCanonical(f) == nCH {
-					ctorPar = g.Params[i]
-				}
-			}
-			if ctorPar == nil {
-				return
-			}
-			allInstrs(g, func(in2 ssa.Instruction) {
-				c2, ok := in2.(*ssa.Call)
-				if !ok || c2.Call.Value != ssa.Value(ctorPar) || len(c2.Call.Args) < 3 {
+			allInstrs(fn, func(in ssa.Instruction) {
+				call, ok := in.(*ssa.Call)
+				if !ok {
 					return
 				}
-				if guardBefore(g, c2, c2.Call.Args[2], bind) {
-					okTwo = true
+				if calleeName(call.Common()) == nCH {
+					nSites++
+					if guardBefore(fn, call, call.Call.Args[2], nil) {
+						nGuarded++
+					}
+					return
 				}
+				// a helper that is handed the constructor
+				g := call.Call.StaticCallee()
+				if g == nil || g.Blocks == nil || !ModuleFunc(g) {
+					return
+				}
+				bind := map[*ssa.Parameter]ssa.Value{}
+				var ctorPar *ssa.Parameter
+				for i, a := range call.Call.Args {
+					if i >= len(g.Params) {
+						break
+					}
+					bind[g.Params[i]] = a
+					if f := resolveFuncValue(a); f != nil && funcCanonical(f) == nCH {
+						ctorPar = g.Params[i]
+					}
+				}
+				if ctorPar == nil {
+					return
+				}
+				allInstrs(g, func(in2 ssa.Instruction) {
+					c2, ok := in2.(*ssa.Call)
+					if !ok || c2.Call.Value != ssa.Value(ctorPar) || len(c2.Call.Args) < 3 {
+						return
+					}
+					nSites++
+					if guardBefore(g, c2, c2.Call.Args[2], bind) {
+						nGuarded++
+					}
+				})
 			})
-		})
+		}
+		okTwo = nSites > 0 && nGuarded == nSites
+		fn := entry
 		c.Judge(okTwo, rdr[0]+"."+rdr[1]+" consistentHashing needs destinations", c.AtFn(fn), "the number of destinations is checked before NewConsistentHashing", "a consistentHashing route can be created without destinations: empty ring")
 	}
 	// consistent hashing ring stays non-empty
-	dd := c.P.Func("route", "*baseRoute", "delDestination")
-	var minPar *ssa.Parameter
-	for _, p := range dd.Params {
-		if p.Name() == "minDests" {
-			minPar = p
-		}
-	}
-	okMin := false
-	if minPar != nil {
-		allInstrs(dd, func(in ssa.Instruction) {
-			if bo, ok := in.(*ssa.BinOp); ok && (bo.X == minPar || bo.Y == minPar) {
-				okMin = true
-			}
-		})
-	}
 	chd := c.P.Func("route", "*ConsistentHashing", "DelDestination")
-	okArg := false
-	allInstrs(chd, func(in ssa.Instruction) {
-		if call, ok := in.(*ssa.Call); ok && strings.HasSuffix(calleeName(call.Common()), "baseRoute).delDestination") {
-			if k, ok := constInt(call.Call.Args[2]); ok && k >= 1 {
-				okArg = true
-			}
-		}
-	})
-	c.Judge(okMin && okArg, "route.ConsistentHashing.DelDestination keeps at least one destination", c.AtFn(chd), "delDestination(index, minDests >= 1, …) with a comparison on minDests", "the last destination of a consistentHashing route can be removed: the next Dispatch computes `% len(Ring)` with an empty ring")
+	okMin := minDestsGuard(c.P, chd)
+	okArg := okMin
+	c.Judge(okMin && okArg, "route.ConsistentHashing.DelDestination keeps at least one destination", c.AtFn(chd), "on the way from DelDestination to the removal the number of destinations is compared with a bound that keeps at least one, and the removal lies on the accepting edge", "the last destination of a consistentHashing route can be removed: the next Dispatch computes `% len(Ring)` with an empty ring")
 }
 
 // evalRel evaluates the integer comparison a op b.
@@ -1435,4 +1462,159 @@ func endFacts(p *Prog, fn *ssa.Function, at ssa.Instruction, v ssa.Value, depth 
 		}
 	}
 	return
+}
+
+// minDestsGuard: starting at entry (binding parameters to call-site arguments and free variables to
+// their captured values along static calls and closures of the same package), some comparison of
+// len(<destinations>) with a value that resolves to a constant rejects lists that would become empty,
+// and every append in the comparing function lies on the accepting edge.
+func minDestsGuard(p *Prog, entry *ssa.Function) bool {
+	type env map[ssa.Value]ssa.Value
+	var resolve func(v ssa.Value, e env, depth int) (int64, bool)
+	resolve = func(v ssa.Value, e env, depth int) (int64, bool) {
+		if depth > 6 {
+			return 0, false
+		}
+		if k, ok := constInt(v); ok {
+			return k, true
+		}
+		if u, ok := v.(*ssa.UnOp); ok && u.Op == token.MUL {
+			if b, ok := e[u.X]; ok {
+				// captured variable: the value stored into the captured cell
+				if al, ok := b.(*ssa.Alloc); ok {
+					if cv := cellValue(al); cv != nil {
+						return resolve(cv, e, depth+1)
+					}
+				}
+				return resolve(b, e, depth+1)
+			}
+		}
+		if b, ok := e[v]; ok {
+			return resolve(b, e, depth+1)
+		}
+		return 0, false
+	}
+	isLen := func(v ssa.Value) bool {
+		call, ok := v.(*ssa.Call)
+		if !ok {
+			return false
+		}
+		b, ok := call.Call.Value.(*ssa.Builtin)
+		return ok && b.Name() == "len"
+	}
+	found := false
+	seen := map[*ssa.Function]bool{}
+	var visit func(fn *ssa.Function, e env, depth int)
+	visit = func(fn *ssa.Function, e env, depth int) {
+		if fn == nil || len(fn.Blocks) == 0 || seen[fn] || depth > 4 || fnPkg(fn) != fnPkg(entry) {
+			return
+		}
+		seen[fn] = true
+		for _, b := range fn.Blocks {
+			ifi, ok := b.Instrs[len(b.Instrs)-1].(*ssa.If)
+			if !ok {
+				continue
+			}
+			cnd, neg := negStrip(ifi.Cond)
+			bo, ok := cnd.(*ssa.BinOp)
+			if !ok {
+				continue
+			}
+			op := bo.Op
+			var other ssa.Value
+			switch {
+			case isLen(bo.X):
+				other = bo.Y
+			case isLen(bo.Y):
+				other = bo.X
+				switch op {
+				case token.LEQ:
+					op = token.GEQ
+				case token.GEQ:
+					op = token.LEQ
+				case token.LSS:
+					op = token.GTR
+				case token.GTR:
+					op = token.LSS
+				}
+			default:
+				continue
+			}
+			k, ok := resolve(other, e, 0)
+			if !ok {
+				continue
+			}
+			rejectOnTrue, need := false, int64(1)
+			switch op {
+			case token.LEQ:
+				rejectOnTrue, need = true, 1
+			case token.LSS:
+				rejectOnTrue, need = true, 2
+			case token.GTR:
+				rejectOnTrue, need = false, 1
+			case token.GEQ:
+				rejectOnTrue, need = false, 2
+			default:
+				continue
+			}
+			if k < need {
+				continue
+			}
+			if neg {
+				rejectOnTrue = !rejectOnTrue
+			}
+			acc := 0
+			if rejectOnTrue {
+				acc = 1
+			}
+			okApp, nApp := true, 0
+			allInstrs(fn, func(in ssa.Instruction) {
+				if _, ok := isBuiltinCall(in, "append"); ok {
+					nApp++
+					if !edgeDominates(b, b.Succs[acc], in.Block()) {
+						okApp = false
+					}
+				}
+			})
+			if okApp && nApp > 0 {
+				found = true
+			}
+		}
+		allInstrs(fn, func(in ssa.Instruction) {
+			call, ok := in.(*ssa.Call)
+			if !ok {
+				return
+			}
+			g := call.Call.StaticCallee()
+			if g == nil {
+				return
+			}
+			ne := env{}
+			for k, v := range e {
+				ne[k] = v
+			}
+			for i, a := range call.Call.Args {
+				if i < len(g.Params) {
+					ne[g.Params[i]] = a
+					// closures handed on as arguments are visited with the caller's bindings
+					if mc, ok := a.(*ssa.MakeClosure); ok {
+						cl := mc.Fn.(*ssa.Function)
+						ce := env{}
+						for k, v := range ne {
+							ce[k] = v
+						}
+						for j, bnd := range mc.Bindings {
+							if j < len(cl.FreeVars) {
+								ce[cl.FreeVars[j]] = bnd
+							}
+						}
+						visit(cl, ce, depth+1)
+					}
+				}
+			}
+			visit(g, ne, depth+1)
+		})
+	}
+	visit(entry, env{}, 0)
+	return found
 }
